@@ -5,6 +5,7 @@ from .facts import Site, op_place, Call, proj_field_name
 from .bits import sym, show
 from .c17 import RC, msg_variant_edges
 from .futflow import ROOT_RX
+from .fields import fields
 
 EXPLANATION = ("decides necessary structural conditions only (tag/identity dataflow equalities on both ends): in the proxy, the tag placed in the outgoing "
                "Call and the key under which the caller's reply port is stored are the same fresh tag, the fresh tag is previous+1 on a counter that nothing "
@@ -79,7 +80,7 @@ def r1(run, db):
     writers = []
     for g in db.crate_fns(RC):
         for site, s in g.stmts():
-            if s["k"] == "assign" and "message_tag" in [proj_field_name(e) for e in s["lhs"][1] if e.startswith("f:")]:
+            if s["k"] == "assign" and fields(db).ra_tag in [proj_field_name(e) for e in s["lhs"][1] if e.startswith("f:")]:
                 writers.append((g, site, s))
     run.check(len(writers) == 1 and writers[0][0].id.endswith("::get_and_increment_mtag"), "tag-counter-single-writer", "the tag counter is written only by get_and_increment_mtag",
               "the tag counter is also written in %s: a tag can be reused while an abandoned request is still in flight, and its late reply reaches another caller" % sorted(set(w[0].id.split("::")[-1] for w in writers if not w[0].id.endswith("::get_and_increment_mtag"))))
@@ -89,11 +90,11 @@ def r1(run, db):
             okv = v is not None and v[0] == "bin" and v[1] == "Add" and v[3] == ("c", 1)
             run.check(okv, "tag=prev+1", "fresh tag = previous + 1", "fresh tag is %s" % (show(v) if v else "?"), g.where(s.get("l")))
             ret = g.origins([0, []])
-            okr = any("message_tag" in [proj_field_name(e) for e in r.get("proj", []) if e.startswith("f:")] for r in ret)
+            okr = any(fields(db).ra_tag in [proj_field_name(e) for e in r.get("proj", []) if e.startswith("f:")] for r in ret)
             run.check(okr, "returns-new-tag", "the function returns the counter after the increment", None, g.where())
     for g in db.crate_fns(RC):
         for site, s in g.aggregates(adt="RemoteActorState"):
-            v = dict(zip(s["rv"]["fields"], s["rv"]["ops"])).get("message_tag")
+            v = dict(zip(s["rv"]["fields"], s["rv"]["ops"])).get(fields(db).ra_tag)
             run.check(v is not None and sym(g, v) == ("c", 0), "tag-init", "a new proxy starts at tag 0", None, g.where(s.get("l")))
 
 
